@@ -326,4 +326,7 @@ def main(tier):
         chk.units += [u for u in dprog.units if u not in chk.units]
     c05_skip.rule_d(dprog, chk, 4)
     c05_skip.positive_control(chk, "C05d", tier)
+    # C05g: sample ranks come from loops over ALL the samples (not over the active count, which skips the last samples of a Db
+    # with a selection)
+    c05_skip.rank_loop_rule(prog, chk, "C05g", tuple(UNITS), 100)
     return chk.finish()
